@@ -131,6 +131,7 @@ def drive(case):
     d = D.Driver()
     yp = d.yp
     T = terms.ImplTerms(yp, case['nvars'])     # ONE table of Variable objects for the whole history (identity of variables)
+    T.reuse = case.get('id', 0) % 2 == 0         # every second history: a term that is built again is the same engine object
     stack = []
     out = []
     kept = []          # every answer ever obtained: the live objects returned by the engine's get_value at that moment
@@ -508,6 +509,7 @@ def gen_heap(rng):
     if rng.random() < 0.3:
         keys.append(('q', rng.choice([0, 1, 2])))
     ops = []
+    prev_asserts = []
     last_fact = {}
     n = rng.choice([4, 6, 9, 12, 16])
     reads = 'every' if rng.random() < (0.6 if n <= 9 else 0.3) else 'end'
@@ -554,8 +556,16 @@ def gen_heap(rng):
                     for v in terms.term_vars(a):
                         note_binding(v, b)
         elif q < 0.52:
+            if prev_asserts and rng.random() < 0.25:
+                # the caller asserts a term it has asserted before (with ImplTerms.reuse: the very same engine object), while
+                # the bindings of its variables may have changed in between
+                t = rng.choice(prev_asserts)
+                ops.append(['assert', rng.random() < 0.3, t, rng.choice(['api', 'api', 'builtin', 'compiled'])])
+                last_fact[(t[1], len(t[2]) if t[0] == 'f' else 0)] = t[2] if t[0] == 'f' else []
+                continue
             args = [small_term(rng, nv, rng.choice([0, 1, 2, 2]), pvar=0.65) for _ in range(k[1])]
             t = ['f', k[0], args] if args else ['a', k[0]]
+            prev_asserts.append(t)
             via = rng.choice(['builtin', 'builtin', 'compiled', 'api'])
             tv = closure(terms.term_vars(t))
             cand = [x for x in range(nv) if x not in tv and x not in dep]
